@@ -10,7 +10,7 @@ from ..pm import AnalysisError, unparse
 from ..report import VERIF, Check
 from ..sym import Resolver, Term, path_of, show, walk
 from . import c08, wiring
-from .common import const_value, is_path, iter_base, loc, loops_over, strip
+from .common import const_value, early_exits, is_path, iter_base, loc, loops_over, strip
 
 EXPLANATION = (
     "static analysis of state carried between processing steps: the set of attributes written (transitively) by "
@@ -26,7 +26,7 @@ ASSUMPTIONS = [
     "numpy and copy.deepcopy are deterministic; two runs of pure code on equal inputs give identical floats",
     "lock-previous off for the history-free clause (property precondition)",
 ]
-FLOORS = {"P1": 3, "O-dea": 7, "H5": 6, "H2": 4, "H3": 4, "H4": 5, "H6": 2, "H7": 3}
+FLOORS = {"P1": 3, "O-dea": 7, "H5": 6, "H2": 7, "H3": 4, "H4": 5, "H6": 2, "H7": 3}
 
 EXPECTED_STEP_STATE = {
     "activation_degree": "Rule: reset by deactivate() at the start of every iteration of every activate()",
@@ -49,6 +49,10 @@ def run(check: Check) -> None:
         only_deactivate(a)
     step_state(check)
     restart(check)
+    from . import c12
+    from ..report import FilteredCheck
+
+    c12.clear(FilteredCheck(check, {"O8": "H2"}))  # type: ignore[arg-type]  # what "clearing an output variable" means
     copy_rules(check)
     ownership(check)
     engine_init(check)
@@ -202,7 +206,7 @@ def restart(check: Check) -> None:
         for h, base, d in loops_over(r, lambda b: is_path(b, f"self.{coll}")):
             body = cfg.loop_body(h)
             for n in body:
-                if pred(n) and not [g for g in cfg.must_guards(n) if g[2] in body] and not cfg.must_guards(h):
+                if pred(n) and not [g for g in cfg.must_guards(n) if g[2] in body] and not cfg.must_guards(h) and not early_exits(cfg, h):
                     return True
         return False
 
@@ -234,7 +238,8 @@ def restart(check: Check) -> None:
         check.analysed(f)
         r2 = Resolver(p, f)
         ok = any(any(isinstance(c.func, ast.Attribute) and c.func.attr == meth and r2.term(c.func.value, n)[0] == "elem" for c in r2.cfg.calls_in(n))
-                 for h, _, _ in loops_over(r2, lambda b: is_path(b, f"self.{coll}")) for n in r2.cfg.loop_body(h))
+                 for h, _, _ in loops_over(r2, lambda b: is_path(b, f"self.{coll}")) for n in r2.cfg.loop_body(h)) and \
+            not any(early_exits(r2.cfg, h) for h, _, _ in loops_over(r2, lambda b: is_path(b, f"self.{coll}")))
         check.require(ok, "H3", f"{qual}/all", f"{meth} is applied to every rule of the block", loc(f))
     for qual in ("Rule.load", "Rule.unload"):
         f = p.func(qual)
